@@ -89,7 +89,9 @@ CLAIMS = {
          "and no byte outstanding violates V_C09; the runtime adapters (tokio, async-std, mio 0.7/0.8/1.0) run operation "
          "histories (poll / deliver / close / add / reactor turn) in forked children and TLC validates them against "
          "the monitor of AsyncOps.tla (a parked task with an unreported signal must be woken by the reactor), whose "
-         "implementation model is checked with the callback behaviour observed",
+         "implementation model is checked with the callback behaviour observed; WakeProof.tla carries a TLAPS proof "
+         "(33 obligations, re-checked) of no-lost-wake-up for any number of delivering threads and signals, applicable "
+         "while the extracted step orders are store-then-wake / drain-then-scan",
          "7.C09", "exhaustive schedule enumeration of real code + TLC trace validation against property-level TLA+ monitor"),
  "C10": ("model_checking",
          "same runs; every yield is validated: watched signal, yields <= deliveries begun at every instant, and for "
